@@ -5,7 +5,7 @@
    Maps, batches, [map_batch], [mget], [keys_ok] are the definitions of coq/SMT/Spec.v and coq/SMT/TreeProofs.v. *)
 From Coq Require Import List NArith ZArith Bool Arith Lia Permutation.
 From LE Require Import SMT.Spec SMT.TreeProofs.
-From LE Require Import Exec.EventLog Exec.TxExec Exec.TxExecProofs Exec.StateRoot Exec.StateRootProofs Exec.CacheProofs.
+From LE Require Import Exec.EventLog Exec.TxExec Exec.TxExecProofs Exec.StateRoot Exec.StateRootProofs Exec.CacheProofs Exec.Recovery.
 Import ListNotations.
 Local Open Scope N_scope.
 
@@ -24,7 +24,8 @@ Section MapFacts.
   Lemma mget_others : forall (m : list (Spec.key * V)) k k',
     mget k (others k' m) = if Spec.key_eqb k k' then None else mget k m.
   Proof.
-    induction m as [|[k0 v0] m]; simpl; intros. - destruct (Spec.key_eqb k k'); auto.
+    induction m as [|[k0 v0] m]; simpl; intros.
+    { destruct (Spec.key_eqb k k'); auto. }
     destruct (Spec.key_eqb k' k0) eqn:E1; simpl.
     - apply skey_eqb_eq in E1. subst. rewrite IHm. destruct (Spec.key_eqb k k0); auto.
     - rewrite IHm. destruct (Spec.key_eqb k k') eqn:E2; auto.
@@ -52,6 +53,11 @@ Section MapFacts.
       + apply (H0 o'); auto.
   Qed.
 End MapFacts.
+
+Lemma skipn_nth : forall {A : Type} m (l : list A) x r d, skipn m l = x :: r -> nth m l d = x.
+Proof.
+  induction m; destruct l; simpl; intros; try discriminate. - inversion H; auto. - eapply IHm; eauto.
+Qed.
 
 Lemma app_inv_len : forall {A : Type} (a a' b b' : list A), length a = length a' -> a ++ b = a' ++ b' -> a = a' /\ b = b'.
 Proof.
@@ -109,12 +115,19 @@ Section RootFacts.
     destruct (Nat.ltb (S (length r)) 7) eqn:B; eauto. apply Nat.ltb_lt in B. lia.
   Qed.
 
+  Lemma tree_key_wf : forall r, (6 <= length r)%nat -> tree_key hash (0 :: r) = Some (firstn 6 r ++ hash (skipn 6 r)).
+  Proof.
+    intros. unfold tree_key. destruct (Nat.ltb (length (0 :: r)) 7) eqn:B.
+    - apply Nat.ltb_lt in B. simpl in B. lia.
+    - reflexivity.
+  Qed.
+
   Lemma tkey_inj : forall k k' t, wfkey k -> wfkey k' -> tkey k = Some t -> tkey k' = Some t -> k = k'.
   Proof.
-    intros k k' t [r [E L]] [r' [E' L']] H H'. subst. unfold tkey, tree_key in *. simpl length in *.
-    destruct (Nat.ltb (S (length r)) 7) eqn:B; [apply Nat.ltb_lt in B; lia|].
-    destruct (Nat.ltb (S (length r')) 7) eqn:B'; [apply Nat.ltb_lt in B'; lia|].
-    simpl in H, H'. inversion H; inversion H'; subst. apply enc_inj in H2.
+    intros k k' t [r [E L]] [r' [E' L']] H H'. subst. unfold tkey in *.
+    rewrite tree_key_wf in H, H' by auto. cbn [option_map] in H, H'.
+    assert (H2 : enc (firstn 6 r ++ hash (skipn 6 r)) = enc (firstn 6 r' ++ hash (skipn 6 r'))) by congruence.
+    apply enc_inj in H2.
     apply app_inv_len in H2. 2:{ rewrite !firstn_length. lia. }
     destruct H2 as [F S]. apply hash_inj in S. f_equal.
     rewrite <- (firstn_skipn 6 r), <- (firstn_skipn 6 r'). congruence.
@@ -176,7 +189,7 @@ Section RootFacts.
                 NoDup (map fst ops).
   Proof.
     induction ws as [|w ws]; intros s M W I ND Hw.
-    - exists []. simpl. repeat split; auto. + intros o []. + constructor.
+    - exists []. simpl. split; [reflexivity|]. split; [exact I|]. split; [exact W|]. split; [intros o []|constructor].
     - inversion ND; subst.
       destruct (wfkey_tree_key (wkey w)) as [t Ht]. { apply Hw; left; auto. }
       destruct (img_write s M w t W I) as [I1 W1]; auto. { apply Hw; left; auto. }
@@ -231,5 +244,428 @@ Section RootFacts.
   Proof.
     intros a hist a' hist' [T [K [I W]]] [T' [K' [I' W']]] E. rewrite T, T'. apply H_C10; auto.
     eapply img_mget_eq; eauto.
+  Qed.
+
+  (* ---- Commit *)
+  Lemma commit_cache_wkeys_nodup : forall c ws d, commit_cache c = (ws, d) -> NoDup (map fst c) -> NoDup (map wkey ws).
+  Proof.
+    induction c as [|[k e] c]; simpl; intros ws d H ND.
+    - inversion H. constructor.
+    - destruct (commit_cache c) as [ws' d'] eqn:E. inversion ND; subst.
+      assert (ND' := IHc _ _ eq_refl H3).
+      assert (NI : ~ In k (map wkey ws')).
+      { intro Hin. apply H2. apply in_map_iff in Hin. destruct Hin as [w [Ew Hw]].
+        pose proof (commit_cache_keys _ _ _ E w Hw) as P. destruct w; simpl in *; subst; auto. }
+      destruct (en_init e); [destruct (en_deleted e); [|destruct (en_dirty e)]|]; inversion H; subst; simpl; auto;
+        constructor; auto.
+  Qed.
+
+  Lemma commit_cache_wkeys_wf : forall c ws d, commit_cache c = (ws, d) -> (forall k, In k (map fst c) -> wfkey k) ->
+    forall w, In w ws -> wfkey (wkey w).
+  Proof. intros. apply H0. pose proof (commit_cache_keys _ _ _ H w H1) as P. destruct w; auto. Qed.
+
+  (* commit_root_is_smt_of_state: a real (non dry-run) Commit of any well-formed staged cache on a consistent database,
+     started from the current root, leaves a consistent database whose state is exactly the staged view (deleted keys
+     absent), whose tree-state record carries the returned root, and the returned root is the root of EVERY history of
+     tree batches that builds the tree image of that state (deleted keys contribute nothing to the image). *)
+  Theorem commit_root_is_smt_of_state : forall a hist c height prev expected a' r,
+    Inv a hist -> cache_good (a_state a) c -> root_eqb prev (tree_root (a_tree a)) = true ->
+    commit a c height prev expected false = COk a' r ->
+    exists ops, Inv a' (hist ++ [ops]) /\ r = tree_root (a_tree a') /\
+      (forall k, lookup (a_state a') k = view (a_state a) c k) /\
+      a_tree_state a' = Some (height, r) /\
+      a_diffs a' = put_diff (a_diffs a) height (snd (commit_cache c)) /\
+      (forall h2, keys_ok n h2 -> img (a_state a') (fold_left map_batch h2 []) ->
+                  r = tree_root (fold_left tree_update h2 tree_empty)).
+  Proof.
+    intros a hist c height prev expected a' r HI [ND [Co Wf]] Hp. unfold commit.
+    destruct (commit_cache c) as [ws d] eqn:E.
+    destruct (inv_step a hist ws HI) as [ops [Eo Hinv]].
+    { eapply commit_cache_wkeys_nodup; eauto. } { eapply commit_cache_wkeys_wf; eauto. }
+    rewrite Eo, Hp. simpl negb. cbv iota.
+    destruct (match expected with Some x => negb (root_eqb (tree_root (tree_update (a_tree a) ops)) x) | None => false end);
+      intro H; inversion H; subst.
+    exists ops. pose proof (Hinv (put_diff (a_diffs a) height d) (Some (height, tree_root (tree_update (a_tree a) ops)))) as I'.
+    split; [exact I'|]. simpl. repeat split; auto.
+    - intros k. eapply commit_writes_staged_view; eauto.
+    - intros h2 K2 I2. apply (inv_root_unique _ _ I' h2 K2 I2).
+  Qed.
+
+  Theorem commit_never_panics : forall a hist c height prev expected dry,
+    Inv a hist -> cache_good (a_state a) c -> root_eqb prev (tree_root (a_tree a)) = true ->
+    match commit a c height prev expected dry with COk _ _ | CMismatch _ => True | _ => False end.
+  Proof.
+    intros a hist c height prev expected dry HI [ND [Co Wf]] Hp. unfold commit.
+    destruct (commit_cache c) as [ws d] eqn:E.
+    destruct (inv_step a hist ws HI) as [ops [Eo Hinv]].
+    { eapply commit_cache_wkeys_nodup; eauto. } { eapply commit_cache_wkeys_wf; eauto. }
+    rewrite Eo, Hp. simpl negb. cbv iota.
+    destruct (match expected with Some x => negb (root_eqb (tree_root (tree_update (a_tree a) ops)) x) | None => false end); auto.
+    destruct dry; auto.
+  Qed.
+
+  (* a dry run or a root mismatch changes nothing (the result carries no database) *)
+
+  (* ---- the diff recorded by Commit undoes it *)
+  Lemma commit_cache_diff_spec : forall c ws d, commit_cache c = (ws, d) ->
+    (forall k, In k (d_added d) -> exists e, In (k, e) c /\ en_init e = None) /\
+    (forall k v0, In (k, v0) (d_deleted d) -> exists e, In (k, e) c /\ en_init e = Some v0 /\ en_deleted e = true) /\
+    (forall k v0, In (k, v0) (d_updated d) -> exists e, In (k, e) c /\ en_init e = Some v0 /\ en_deleted e = false /\ en_dirty e = true) /\
+    (forall k e, In (k, e) c -> match en_init e with
+                                | None => In k (d_added d)
+                                | Some v0 => if en_deleted e then In (k, v0) (d_deleted d)
+                                             else if en_dirty e then In (k, v0) (d_updated d) else True
+                                end).
+  Proof.
+    induction c as [|[k0 e0] c]; simpl; intros ws d H.
+    - inversion H; subst; simpl. repeat split; intros; try tauto.
+    - destruct (commit_cache c) as [ws' d'] eqn:E. destruct (IHc _ _ eq_refl) as [A [B [C D]]].
+      destruct (en_init e0) as [v|] eqn:I; [destruct (en_deleted e0) eqn:Dl; [|destruct (en_dirty e0) eqn:Dy]|];
+        inversion H; subst; simpl; (split; [|split; [|split]]).
+      all: try (intros k Hk; destruct (A k Hk) as [e [P Q]]; exists e; split; auto; fail).
+      all: try (intros k v0 Hk; destruct (B k v0 Hk) as [e [P Q]]; exists e; split; auto; fail).
+      all: try (intros k v0 Hk; destruct (C k v0 Hk) as [e [P Q]]; exists e; split; auto; fail).
+      all: try (intros k e [Hk|Hk]; [inversion Hk; subst; rewrite ?I, ?Dl, ?Dy; simpl; auto |
+                                     specialize (D k e Hk); destruct (en_init e); auto;
+                                     destruct (en_deleted e); simpl; auto; destruct (en_dirty e); simpl; auto]; fail).
+      + intros k v0 [Hk|Hk]. * inversion Hk; subst. exists e0. auto. * destruct (B k v0 Hk) as [e [P Q]]. exists e; auto.
+      + intros k v0 [Hk|Hk]. * inversion Hk; subst. exists e0. auto. * destruct (C k v0 Hk) as [e [P Q]]. exists e; auto.
+      + intros k [Hk|Hk]. * subst. exists e0. auto. * destruct (A k Hk) as [e [P Q]]. exists e; auto.
+  Qed.
+
+  Lemma revert_keys : forall d, map wkey (revert_writes d) = d_added d ++ map fst (d_deleted d) ++ map fst (d_updated d).
+  Proof.
+    intros. unfold revert_writes. rewrite !map_app, !map_map. simpl. f_equal. rewrite map_id. auto.
+  Qed.
+
+  Lemma in_pair_lookup : forall {A : Type} (l : list (bytes * A)) k a, NoDup (map fst l) -> In (k, a) l -> lookup l k = Some a.
+  Proof.
+    induction l as [|[k' a'] l]; simpl; intros; try tauto. inversion H; subst. destruct H0.
+    - inversion H0; subst. rewrite bytes_eqb_refl. auto.
+    - destruct (bytes_eqb k' k) eqn:E. + apply bytes_eqb_eq in E. subst. exfalso. apply H3. apply in_map_iff. exists (k, a). auto.
+      + apply IHl; auto.
+  Qed.
+  Lemma lookup_in_pair : forall {A : Type} (l : list (bytes * A)) k a, lookup l k = Some a -> In (k, a) l.
+  Proof.
+    induction l as [|[k' a'] l]; simpl; intros; try discriminate.
+    destruct (bytes_eqb k' k) eqn:E. - apply bytes_eqb_eq in E. inversion H; subst. auto. - right. auto.
+  Qed.
+
+  Lemma diff_keys_in_cache : forall c ws d, commit_cache c = (ws, d) ->
+    forall k, In k (map wkey (revert_writes d)) -> In k (map fst c).
+  Proof.
+    intros c ws d H k Hk. destruct (commit_cache_diff_spec _ _ _ H) as [A [B [C _]]].
+    rewrite revert_keys in Hk. apply in_app_or in Hk. destruct Hk as [Hk|Hk].
+    - destruct (A k Hk) as [e [P _]]. apply in_map_iff. exists (k, e). auto.
+    - apply in_app_or in Hk. destruct Hk as [Hk|Hk]; apply in_map_iff in Hk; destruct Hk as [[k' v0] [Ek Hk]]; simpl in Ek; subst.
+      + destruct (B k v0 Hk) as [e [P _]]. apply in_map_iff. exists (k, e). auto.
+      + destruct (C k v0 Hk) as [e [P _]]. apply in_map_iff. exists (k, e). auto.
+  Qed.
+
+  Lemma diff_keys_nodup : forall c ws d, commit_cache c = (ws, d) -> NoDup (map fst c) -> NoDup (map wkey (revert_writes d)).
+  Proof.
+    induction c as [|[k0 e0] c]; simpl; intros ws d H ND.
+    - inversion H; subst. simpl. constructor.
+    - destruct (commit_cache c) as [ws' d'] eqn:E. inversion ND; subst.
+      assert (ND' := IHc _ _ eq_refl H3).
+      assert (NI : ~ In k0 (map wkey (revert_writes d'))) by (intro Q; apply H2; eapply diff_keys_in_cache; eauto).
+      rewrite revert_keys in *.
+      destruct (en_init e0); [destruct (en_deleted e0); [|destruct (en_dirty e0)]|]; inversion H; subst; simpl; auto.
+      + apply (Permutation_NoDup (l := k0 :: d_added d' ++ map fst (d_deleted d') ++ map fst (d_updated d'))).
+        * apply Permutation_middle. * constructor; auto.
+      + apply (Permutation_NoDup (l := k0 :: d_added d' ++ map fst (d_deleted d') ++ map fst (d_updated d'))).
+        * rewrite app_assoc. rewrite (app_assoc (d_added d')). apply Permutation_middle. * constructor; auto.
+      + constructor; auto.
+  Qed.
+
+  Theorem diff_undoes_commit : forall s c ws d, cache_good s c -> commit_cache c = (ws, d) ->
+    NoDup (map wkey (revert_writes d)) /\ (forall w, In w (revert_writes d) -> wfkey (wkey w)) /\
+    forall k, lookup (apply_writes (apply_writes s ws) (revert_writes d)) k = lookup s k.
+  Proof.
+    intros s c ws d [ND [Co Wf]] H.
+    assert (N1 : NoDup (map wkey (revert_writes d))) by (eapply diff_keys_nodup; eauto).
+    split; auto. split.
+    { intros w Hw. apply Wf. eapply diff_keys_in_cache; eauto. apply in_map; auto. }
+    intros k. assert (V := commit_writes_staged_view c s ws d ND Co H k).
+    destruct (commit_cache_diff_spec _ _ _ H) as [A [B [C D]]].
+    destruct (lookup c k) as [e|] eqn:L.
+    - apply lookup_in_pair in L. pose proof (D k e L) as De. destruct (Co k e (in_pair_lookup _ _ _ ND L)) as [C1 [C2 C3]].
+      assert (InW : forall w, In w (revert_writes d) -> wkey w = k -> lookup (apply_writes (apply_writes s ws) (revert_writes d)) k = wval w).
+      { intros w Hw Ek. rewrite <- Ek. apply apply_writes_in; auto. }
+      destruct (en_init e) as [v0|] eqn:I.
+      + destruct (en_deleted e) eqn:Dl; [|destruct (en_dirty e) eqn:Dy].
+        * rewrite (InW (WSet k v0)); simpl; auto. unfold revert_writes. apply in_or_app. right. apply in_or_app. left.
+          apply in_map_iff. exists (k, v0). auto.
+        * rewrite (InW (WSet k v0)); simpl; auto. unfold revert_writes. apply in_or_app. right. apply in_or_app. right.
+          apply in_map_iff. exists (k, v0). auto.
+        * rewrite apply_writes_other.
+          -- rewrite V. unfold view. rewrite (in_pair_lookup _ _ _ ND L), Dl. apply C2; auto. congruence.
+          -- intro Hin. rewrite revert_keys in Hin. apply in_app_or in Hin. destruct Hin as [Hin|Hin].
+             ++ destruct (A k Hin) as [e' [P Q]]. pose proof (in_pair_lookup _ _ _ ND P). pose proof (in_pair_lookup _ _ _ ND L). congruence.
+             ++ apply in_app_or in Hin. destruct Hin as [Hin|Hin]; apply in_map_iff in Hin; destruct Hin as [[k' v1] [Ek Hin]]; simpl in Ek; subst.
+                ** destruct (B k v1 Hin) as [e' [P [Q1 Q2]]]. pose proof (in_pair_lookup _ _ _ ND P). pose proof (in_pair_lookup _ _ _ ND L). congruence.
+                ** destruct (C k v1 Hin) as [e' [P [Q1 [Q2 Q3]]]]. pose proof (in_pair_lookup _ _ _ ND P). pose proof (in_pair_lookup _ _ _ ND L). congruence.
+      + rewrite (InW (WDel k)); simpl; auto. unfold revert_writes. apply in_or_app. left. apply in_map; auto.
+    - rewrite apply_writes_other.
+      + rewrite V. unfold view. rewrite L. auto.
+      + intro Hin. apply (lookup_none_notin _ _ L). eapply diff_keys_in_cache; eauto.
+  Qed.
+
+  (* ---- Revert *)
+  Definition reverted (a : appdb) (H : N) (d : diff) (ops : list (@op bytes)) : appdb :=
+    {| a_state := apply_writes (a_state a) (revert_writes d); a_tree := tree_update (a_tree a) ops; a_diffs := a_diffs a;
+       a_tree_state := Some ((H + 2 ^ 32 - 1) mod 2 ^ 32, tree_root (tree_update (a_tree a) ops)) |}.
+
+  Lemma revert_step : forall a hist H d sr expected, Inv a hist -> diff_at (a_diffs a) H = Some d ->
+    NoDup (map wkey (revert_writes d)) -> (forall w, In w (revert_writes d) -> wfkey (wkey w)) ->
+    root_eqb sr (tree_root (a_tree a)) = true ->
+    exists ops, Inv (reverted a H d ops) (hist ++ [ops]) /\
+      revert a H sr expected =
+      if match expected with Some x => negb (root_eqb (tree_root (a_tree (reverted a H d ops))) x) | None => false end
+      then RMismatch (tree_root (a_tree (reverted a H d ops)))
+      else ROk (reverted a H d ops) (tree_root (a_tree (reverted a H d ops))).
+  Proof.
+    intros a hist H d sr expected HI Hd ND Wf Hr.
+    destruct (inv_step a hist (revert_writes d) HI ND Wf) as [ops [Eo Hinv]].
+    exists ops. split. { apply Hinv. }
+    unfold revert. rewrite Hd, Eo, Hr. simpl negb. cbv iota. reflexivity.
+  Qed.
+
+  (* ---- chains of undoable blocks *)
+  Inductive Chain (diffs : list (N * diff)) : N -> list store -> Prop :=
+  | ch_one : forall H s, Chain diffs H [s]
+  | ch_cons : forall H s s' rest d, 0 < H -> diff_at diffs H = Some d ->
+      NoDup (map wkey (revert_writes d)) -> (forall w, In w (revert_writes d) -> wfkey (wkey w)) ->
+      (forall k, lookup (apply_writes s (revert_writes d)) k = lookup s' k) ->
+      Chain diffs (H - 1) (s' :: rest) -> Chain diffs H (s :: s' :: rest).
+
+  Lemma chain_ext : forall d1 d2 H l, Chain d1 H l -> (forall h, h <= H -> diff_at d1 h = diff_at d2 h) -> Chain d2 H l.
+  Proof.
+    induction 1; intros. - constructor.
+    - econstructor; eauto. + rewrite <- H6; auto. lia. + apply IHChain. intros. apply H6. lia.
+  Qed.
+
+  Lemma diff_at_filter : forall l h h', h <> h' -> diff_at (filter (fun x => negb (fst x =? h)) l) h' = diff_at l h'.
+  Proof.
+    induction l as [|[x d] l]; simpl; intros; auto.
+    destruct (x =? h) eqn:E; simpl.
+    - apply N.eqb_eq in E. subst. rewrite IHl; auto. destruct (h =? h') eqn:E2; auto. apply N.eqb_eq in E2. congruence.
+    - rewrite IHl; auto.
+  Qed.
+  Lemma diff_at_put_same : forall l h d, diff_at (put_diff l h d) h = Some d.
+  Proof. intros. unfold put_diff. simpl. rewrite N.eqb_refl. auto. Qed.
+  Lemma diff_at_put_other : forall l h d h', h <> h' -> diff_at (put_diff l h d) h' = diff_at l h'.
+  Proof.
+    intros. unfold put_diff. simpl. destruct (h =? h') eqn:E. - apply N.eqb_eq in E. congruence. - apply diff_at_filter; auto.
+  Qed.
+
+  Variable empty_root : R.
+  Hypothesis empty_root_spec : empty_root = tree_root tree_empty.
+
+  (* the application is at height H; sts = its state and the states it can still be rolled back to, newest first *)
+  Definition Good (a : appdb) (H : N) (sts : list store) : Prop :=
+    (exists hist, Inv a hist) /\
+    (a_tree_state a = Some (H, tree_root (a_tree a)) \/
+     (a_tree_state a = None /\ H = 0 /\ tree_root (a_tree a) = empty_root)) /\
+    H < 2 ^ 32 /\ Chain (a_diffs a) H sts /\
+    exists s rest, sts = s :: rest /\ forall k, lookup (a_state a) k = lookup s k.
+
+  Lemma fresh_good : forall diffs,
+    Good {| a_state := []; a_tree := tree_empty; a_diffs := diffs; a_tree_state := None |} 0 [[]].
+  Proof.
+    intros. split; [|split; [|split; [|split]]].
+    - exists []. split; [reflexivity|]. split. + intros b o []. + split. * intros tk hv. simpl. split; [discriminate|].
+        intros [k [v [A _]]]. discriminate. * intros k v A. discriminate.
+    - right. simpl. rewrite empty_root_spec. auto.
+    - reflexivity.
+    - constructor.
+    - exists [], []. split; auto.
+  Qed.
+
+  (* a real Commit of the next block keeps the database good and pushes the new state on the chain *)
+  Theorem commit_good : forall a H sts c expected a' r,
+    Good a H sts -> cache_good (a_state a) c -> H + 1 < 2 ^ 32 ->
+    commit a c (H + 1) (tree_root (a_tree a)) expected false = COk a' r ->
+    Good a' (H + 1) (a_state a' :: sts) /\ r = tree_root (a_tree a').
+  Proof.
+    intros a H sts c expected a' r [[hist HI] [Ts [HH [Ch [s [rest [Es Eq]]]]]]] Cg Hlt Hc.
+    assert (Hp : root_eqb (tree_root (a_tree a)) (tree_root (a_tree a)) = true) by (apply root_eqb_spec; auto).
+    destruct (commit_root_is_smt_of_state _ _ _ _ _ _ _ _ HI Cg Hp Hc) as [ops [I' [Er [Ev [Et [Ed _]]]]]].
+    split; auto. split; [eauto|]. split. { left. rewrite Et, Er. auto. } split; auto. split.
+    - subst sts. destruct (commit_cache c) as [ws d] eqn:E. simpl in Ed.
+      destruct (diff_undoes_commit _ _ _ _ Cg E) as [U1 [U2 U3]].
+      assert (Est : a_state a' = apply_writes (a_state a) ws).
+      { unfold commit in Hc. rewrite E in Hc. destruct (tree_updates ws); try discriminate.
+        rewrite Hp in Hc. simpl in Hc.
+        destruct (match expected with Some x => negb (root_eqb (tree_root (tree_update (a_tree a) l)) x) | None => false end);
+          inversion Hc; auto. }
+      apply (ch_cons _ _ _ _ _ d); auto.
+      + lia.
+      + rewrite Ed. apply diff_at_put_same.
+      + intros k. rewrite Est, U3. auto.
+      + replace (H + 1 - 1) with H by lia. apply (chain_ext (a_diffs a)); auto.
+        intros h Hh. rewrite Ed. symmetry. apply diff_at_put_other. lia.
+    - exists (a_state a'), sts. auto.
+  Qed.
+
+  (* Revert of the tip block of a good database: back to the previous state of the chain, and (same state => same root)
+     back to the root that state had — revert_restores_state_and_root *)
+  Theorem revert_good : forall a H s s' rest expected,
+    Good a H (s :: s' :: rest) ->
+    exists a'', Good a'' (H - 1) (s' :: rest) /\ a_tree_state a'' = Some (H - 1, tree_root (a_tree a'')) /\
+      a_diffs a'' = a_diffs a /\
+      revert a H (tree_root (a_tree a)) expected =
+      if match expected with Some x => negb (root_eqb (tree_root (a_tree a'')) x) | None => false end
+      then RMismatch (tree_root (a_tree a'')) else ROk a'' (tree_root (a_tree a'')).
+  Proof.
+    intros a H s s' rest expected [[hist HI] [Ts [HH [Ch [s0 [rest0 [Es Eq]]]]]]].
+    inversion Es; subst s0 rest0. inversion Ch; subst.
+    assert (Hp : root_eqb (tree_root (a_tree a)) (tree_root (a_tree a)) = true) by (apply root_eqb_spec; auto).
+    destruct (revert_step a hist H d (tree_root (a_tree a)) expected HI H5 H6 H8 Hp) as [ops [I'' Er]].
+    assert (Hm : (H + 2 ^ 32 - 1) mod 2 ^ 32 = H - 1).
+    { assert (P : 2 ^ 32 = 4294967296) by reflexivity. rewrite P in *.
+      replace (H + 4294967296 - 1) with ((H - 1) + 1 * 4294967296) by lia.
+      rewrite N.mod_add by lia. apply N.mod_small. lia. }
+    assert (Hts : a_tree_state (reverted a H d ops) = Some (H - 1, tree_root (a_tree (reverted a H d ops)))).
+    { unfold reverted. cbn [a_tree_state a_tree]. rewrite Hm. auto. }
+    exists (reverted a H d ops). split; [|split; [exact Hts | split; [reflexivity | exact Er]]].
+    split; [eauto|]. split. { left. exact Hts. }
+    split. { lia. } split. { simpl. auto. }
+    exists s', rest. split; auto. intros k. simpl. rewrite <- H9. apply apply_writes_ext. apply Eq.
+  Qed.
+
+  Theorem revert_restores_state_and_root : forall a H sts c a' r expected,
+    Good a H sts -> cache_good (a_state a) c -> H + 1 < 2 ^ 32 ->
+    commit a c (H + 1) (tree_root (a_tree a)) None false = COk a' r ->
+    exists a'', (forall k, lookup (a_state a'') k = lookup (a_state a) k) /\
+                tree_root (a_tree a'') = tree_root (a_tree a) /\
+                a_tree_state a'' = Some (H, tree_root (a_tree a)) /\
+                revert a' (H + 1) r expected =
+                if match expected with Some x => negb (root_eqb (tree_root (a_tree a)) x) | None => false end
+                then RMismatch (tree_root (a_tree a)) else ROk a'' (tree_root (a_tree a)).
+  Proof.
+    intros a H sts c a' r expected G Cg Hlt Hc.
+    destruct (commit_good _ _ _ _ _ _ _ G Cg Hlt Hc) as [G' Er].
+    destruct G as [[hist HI] [Ts [HH [Ch [s [rest [Es Eq]]]]]]]. subst sts.
+    destruct (revert_good a' (H + 1) (a_state a') s rest expected G') as [a'' [G'' [Ts'' [_ Rv]]]].
+    replace (H + 1 - 1) with H in * by lia.
+    destruct G'' as [[hist'' HI''] [_ [_ [_ [s2 [rest2 [Es2 Eq2]]]]]]]. inversion Es2; subst s2 rest2.
+    assert (Est : forall k, lookup (a_state a'') k = lookup (a_state a) k) by (intros; rewrite Eq2, Eq; auto).
+    assert (Ert : tree_root (a_tree a'') = tree_root (a_tree a)) by (eapply inv_same_state_same_root; eauto).
+    exists a''. split; auto. split; auto. split. { rewrite Ts'', Ert. auto. }
+    rewrite Er. rewrite Rv, Ert. reflexivity.
+  Qed.
+
+  (* ---- Init: restart recovery *)
+  Notation init_loop := (init_loop hash enc root_eqb tree_update tree_root).
+  Notation init := (init hash enc root_eqb tree_update tree_root empty_root).
+
+  Lemma good_tree_state : forall a H sts, Good a H sts ->
+    match a_tree_state a with Some x => x | None => (0, empty_root) end = (H, tree_root (a_tree a)).
+  Proof.
+    intros a H sts [_ [[T|[T [Z E]]] _]]; rewrite T; auto. subst. rewrite E. auto.
+  Qed.
+
+  Lemma init_loop_good : forall fuel a H sts last, Good a H sts -> last <= H ->
+    (N.to_nat (H - last) <= fuel)%nat -> (N.to_nat (H - last) < length sts)%nat ->
+    exists a', init_loop a H (tree_root (a_tree a)) last fuel = inr (a', tree_root (a_tree a')) /\
+               Good a' last (skipn (N.to_nat (H - last)) sts) /\ a_diffs a' = a_diffs a.
+  Proof.
+    induction fuel; intros a H sts last G Hle Hf Hl.
+    - assert (H = last) by lia. subst. simpl. rewrite N.leb_refl. exists a. rewrite N.sub_diag. simpl. auto.
+    - simpl. destruct (H <=? last) eqn:E.
+      + apply N.leb_le in E. assert (H = last) by lia. subst. exists a. rewrite N.sub_diag. simpl. auto.
+      + apply N.leb_gt in E.
+        destruct sts as [|s [|s' rest]]; simpl in Hl; try lia.
+        destruct (revert_good a H s s' rest None G) as [a'' [G'' [Ts'' [Df Rv]]]].
+        rewrite Rv. cbv iota.
+        destruct (IHfuel a'' (H - 1) (s' :: rest) last G'') as [a' [L' [G' D']]]; try lia.
+        { simpl. lia. }
+        exists a'. split; auto. split; [|congruence].
+        replace (N.to_nat (H - last)) with (S (N.to_nat (H - 1 - last))) by lia. simpl. exact G'.
+  Qed.
+
+  (* init_recovers_to_engine_tip: from a good database at height H, Init with the engine at height last <= H (and
+     H - last states still undoable) rolls back to exactly the state the application had at [last], with the tree-state
+     record at [last], and answers IOk iff the engine's root equals the root of that state, IConflict otherwise *)
+  Theorem init_recovers_to_engine_tip : forall a H sts last last_root, Good a H sts -> last <= H ->
+    (N.to_nat (H - last) < length sts)%nat ->
+    exists a', Good a' last (skipn (N.to_nat (H - last)) sts) /\ a_diffs a' = a_diffs a /\
+               init a last last_root = if root_eqb (tree_root (a_tree a')) last_root then IOk a' else IConflict a'.
+  Proof.
+    intros a H sts last last_root G Hle Hl. unfold Recovery.init.
+    rewrite (good_tree_state _ _ _ G).
+    replace (H <? last) with false by (symmetry; apply N.ltb_ge; auto).
+    destruct (init_loop_good (N.to_nat (H - last)) a H sts last G Hle (le_n _) Hl) as [a' [L [G' D']]].
+    rewrite L. exists a'. split; auto.
+  Qed.
+
+  Theorem init_behind : forall a H sts last last_root, Good a H sts -> H < last -> init a last last_root = IBehind.
+  Proof.
+    intros. unfold Recovery.init. rewrite (good_tree_state _ _ _ H0).
+    replace (H <? last) with true by (symmetry; apply N.ltb_lt; auto). auto.
+  Qed.
+
+  (* when the engine's root is the root of (any consistent database holding) the state at [last], Init succeeds *)
+  Theorem init_succeeds_on_matching_root : forall a H sts last b hb, Good a H sts -> last <= H ->
+    (N.to_nat (H - last) < length sts)%nat -> Inv b hb ->
+    (forall k, lookup (a_state b) k = lookup (nth (N.to_nat (H - last)) sts []) k) ->
+    exists a', init a last (tree_root (a_tree b)) = IOk a' /\ Good a' last (skipn (N.to_nat (H - last)) sts).
+  Proof.
+    intros a H sts last b hb G Hle Hl Ib Eb.
+    destruct (init_recovers_to_engine_tip a H sts last (tree_root (a_tree b)) G Hle Hl) as [a' [G' [_ Ei]]].
+    exists a'. split; auto. rewrite Ei.
+    destruct G' as [[h' I'] [_ [_ [_ [s [rest [Es Eq]]]]]]].
+    assert (tree_root (a_tree a') = tree_root (a_tree b)).
+    { eapply inv_same_state_same_root; eauto. intros k. rewrite Eq, Eb.
+      f_equal. symmetry. eapply skipn_nth; eauto. }
+    rewrite H0. replace (root_eqb (tree_root (a_tree b)) (tree_root (a_tree b))) with true; auto.
+    symmetry. apply root_eqb_spec. auto.
+  Qed.
+
+  (* ---- every sequence of blocks, reverts and restarts *)
+  Definition fresh : appdb := {| a_state := []; a_tree := tree_empty; a_diffs := []; a_tree_state := None |}.
+
+  Inductive reach : appdb -> N -> Prop :=
+  | rc_fresh : reach fresh 0
+  | rc_block : forall a H txs c v expected a' r, reach a H -> Forall tx_wf txs ->
+      exec_txs (a_state a) (H + 1) [] no_snaps txs = (c, v) -> H + 1 < 2 ^ 32 ->
+      commit a c (H + 1) (tree_root (a_tree a)) expected false = COk a' r -> reach a' (H + 1)
+  | rc_revert : forall a H expected a' r, reach a H ->
+      revert a H (tree_root (a_tree a)) expected = ROk a' r -> reach a' (H - 1)
+  | rc_restart : forall a H last lr a', reach a H ->
+      (init a last lr = IOk a' \/ init a last lr = IConflict a') -> reach a' last.
+
+  Theorem reach_good : forall a H, reach a H ->
+    exists sts, Good a H sts /\ length sts = S (N.to_nat H) /\ diff_at (a_diffs a) 0 = None.
+  Proof.
+    induction 1.
+    - exists [[]]. split; [apply fresh_good|]. auto.
+    - destruct IHreach as [sts [G [L D0]]].
+      assert (Cg : cache_good (a_state a) c).
+      { eapply block_cache_good; eauto. - apply empty_cache_good. - apply no_snaps_good. }
+      destruct (commit_good _ _ _ _ _ _ _ G Cg H3 H4) as [G' _].
+      exists (a_state a' :: sts). split; auto. split. { simpl. rewrite L. lia. }
+      destruct G as [[hist HI] _].
+      assert (Hp : root_eqb (tree_root (a_tree a)) (tree_root (a_tree a)) = true) by (apply root_eqb_spec; auto).
+      destruct (commit_root_is_smt_of_state _ _ _ _ _ _ _ _ HI Cg Hp H4) as [ops [_ [_ [_ [_ [Ed _]]]]]].
+      rewrite Ed. rewrite diff_at_put_other; auto. lia.
+    - destruct IHreach as [sts [G [L D0]]].
+      destruct sts as [|s [|s' rest]]; simpl in L; try lia.
+      + assert (H = 0) by lia. subst. unfold StateRoot.revert in H1. rewrite D0 in H1. discriminate.
+      + destruct (revert_good a H s s' rest expected G) as [a'' [G'' [Ts'' [Df Rv]]]].
+        rewrite Rv in H1.
+        destruct (match expected with Some x => negb (root_eqb (tree_root (a_tree a'')) x) | None => false end);
+          inversion H1; subst.
+        exists (s' :: rest). split; auto. split. { simpl in *. lia. } rewrite Df. auto.
+    - destruct IHreach as [sts [G [L D0]]].
+      destruct (N.lt_ge_cases H last) as [Hlt|Hge].
+      + rewrite (init_behind _ _ _ _ lr G Hlt) in H1. destruct H1; discriminate.
+      + destruct (init_recovers_to_engine_tip a H sts last lr G Hge) as [a2 [G2 [Df Ei]]]. { rewrite L. lia. }
+        assert (a' = a2).
+        { rewrite Ei in H1. destruct (root_eqb (tree_root (a_tree a2)) lr); destruct H1 as [Q|Q]; inversion Q; auto. }
+        subst a2. exists (skipn (N.to_nat (H - last)) sts). split; auto. split.
+        { rewrite skipn_length, L. lia. }
+        rewrite Df. auto.
   Qed.
 End RootFacts.
